@@ -22,6 +22,8 @@ from 2^63 words on (key C13:len-overflow-2^63; the model's `lenBuiltin` has that
 theorem C13_len_full_fails proves it) and cached queries on an unbound temporary raise
 RuntimeError (key C06:cached-query-on-temporary, owned by C06).
 
+Round 4 (seeded change C13_w4m1): DERIVED-AFTER-QUERY — see the comment above `run_derived`.
+
 Round 3 (seeded changes C13_w3m1 / C13_w3m2): SESSIONS — 4–16 C13 queries asked one after the other of ONE
 live object (count, words, partially consumed words generator, iteration prefix, min/max/empty/finite,
 cardinality/len, random_word, clear_cache, the same queries on `live.copy()`), every enumeration / count
@@ -44,6 +46,7 @@ from harness import gen
 from harness import dfa_query_lib as L
 from harness import dfa_query_lib2 as L2
 from harness import dfa_query_lib3 as L3
+from harness import dfa_history_lib as H
 from harness.common import guarded as case_guard
 from harness.common import Ctx, Toks, call, enc_dfa, toks
 
@@ -58,7 +61,12 @@ RULE = ("cases = (valid DFA, query, parameters) with query ∈ {count k, words k
         "enumeration / count asked twice, interleaved) × object built under the default options / under "
         "allow_mutable_automata=True from plain, aliased or copied containers: fixed batteries on a corpus and on all DFAs "
         "with ≤2 states over {a,b}, random sessions on shaped random DFAs, every answer judged against the language of the "
-        "definition as built; a case is "
+        "definition as built; round 4: derivation cases = C13 queries on a source object, THEN a new DFA made from it by a "
+        "library operation (complement with both minify values / ~ / copy / to_complete / to_partial / minify / union, "
+        "intersection, difference, symmetric difference with itself or a second DFA on either side, as methods and "
+        "operators; optionally a second derivation from the first result), then the C13 queries on the DERIVED object(s) "
+        "and on the source again, every answer judged on the definition of the object that was asked (corpus × every "
+        "operation × source queried or not; random sources, half of them complete); a case is "
         "non-trivial when the language is non-empty and the DFA has ≥2 states; distinct = distinct "
         "(definition, query, parameters)")
 ASSUMPTIONS = [
@@ -1001,6 +1009,305 @@ def session_family(ctx: Ctx):
             check_session(ctx, ref, mode, rand_session(rng, orc), "random", orc)
 
 
+# --------------------------------------------------------------- round 4: objects DERIVED from a queried object
+# A *derivation case*: C13 queries are asked of a live source object (`pre`, judged like any session), THEN a new
+# DFA is made from it by a library operation (H.DERIVE: complement with both minify values / ~ / copy /
+# to_complete / to_partial / minify / the boolean operations with the object itself or with a second DFA on
+# either side), and the C13 queries are asked of the DERIVED object; optionally a second object is derived from the
+# first derived one, and at the end the source is asked again.  Every answer is judged by the oracles of this
+# module on the definition of the object that was ASKED — for a derived object: a twin built from its own
+# states / transitions / initial / final states right after the derivation (whether the operation computed the
+# right language is C04/C05's business; here the derived object must answer for ITSELF, not for its parent).
+DERIVED_ORACLE_WORDS = 20000
+
+
+def bounded_oracle(ref: DFA):
+    """SessionOracle(ref), or None when enumerating the words it needs would be too expensive."""
+    sh = L.language_shape(ref)
+    K = K_for(ref)
+    hi = K if (not sh["finite"] or sh["empty"]) else max(K, sh["max"])
+    m = len(ref.input_symbols)
+    if sum(m ** k for k in range(hi + 1)) > DERIVED_ORACLE_WORDS:
+        return None
+    return SessionOracle(ref)
+
+
+def _ask(ses: Session, orc: SessionOracle, steps, who: str):
+    """Ask the steps, judge each; (index, message) of the first wrong answer or None."""
+    for i, s in enumerate(steps):
+        if not orc.in_range(s):
+            continue
+        got, _ = ses.do(s)
+        msg = orc.judge(s, got)
+        if msg is not None:
+            return i, ("gave no answer within %d s" % SESSION_TIMEOUT_S if got == ("err", "_Timeout") else msg)
+    return None
+
+
+def run_derived(src_ref: DFA, other_ref, case: dict, oracles: dict = None):
+    """Execute a derivation case from new objects.  Returns dict(fail=(where, index, message) or None,
+    derive_error=..., defs=[definitions of the derived objects], skipped=bool).  `oracles`: cache
+    {definition repr -> SessionOracle or None} shared between the first run and the minimiser."""
+    oracles = {} if oracles is None else oracles
+    mode = case.get("mode", "frozen")
+
+    def oracle_for(ref):
+        key = repr(ref)
+        if key not in oracles:
+            oracles[key] = bounded_oracle(ref)
+        return oracles[key]
+
+    out = dict(fail=None, derive_error=None, defs=[], skipped=False)
+    with L3.mutable_option(mode):
+        keep = []
+        src = L3.build_live(src_ref, mode, keep)
+        other = L3.build_live(other_ref, mode, keep) if other_ref is not None else None
+        ses_src = Session(src)
+        orc_src = oracle_for(src_ref)
+        if orc_src is None:
+            out["skipped"] = True
+            return out
+        r = _ask(ses_src, orc_src, case["pre"], "source")
+        if r:
+            out["fail"] = ("pre", r[0], r[1])
+            return out
+        if other is not None and case.get("other_pre"):
+            orc_o = oracle_for(other_ref)
+            if orc_o is not None:
+                ses_o = Session(other)
+                keep.append(ses_o)
+                r = _ask(ses_o, orc_o, case["other_pre"], "other")
+                if r:
+                    out["fail"] = ("other_pre", r[0], r[1])
+                    return out
+        cur = src
+        for j, st in enumerate(case["stages"]):
+            d = call(lambda: H.derive(st["derive"], cur, other))
+            if d[0] == "err":
+                out["derive_error"] = (j, d[1])
+                return out
+            D = d[1]
+            keep.append(D)
+            with L3.mutable_option("frozen"):
+                dref = H.twin_of(D)
+            out["defs"].append(dref)
+            orc = oracle_for(dref)
+            if orc is None:
+                out["skipped"] = True
+                return out
+            r = _ask(Session(D), orc, st["steps"], f"D{j + 1}")
+            if r:
+                out["fail"] = (j, r[0], r[1])
+                return out
+            cur = D
+        r = _ask(ses_src, orc_src, case.get("src_post", []), "source")
+        if r:
+            out["fail"] = ("src_post", r[0], r[1])
+    return out
+
+
+def show_derivation(case: dict, upto_stage) -> str:
+    parts = []
+    if case["pre"]:
+        parts.append("queried the source d: " + "; ".join(show_step(s) for s in case["pre"]))
+    if case.get("other_pre"):
+        parts.append("queried other: " + "; ".join(show_step(s) for s in case["other_pre"]))
+    prev = "d"
+    stages = case["stages"] if not isinstance(upto_stage, int) else case["stages"][: upto_stage + 1]
+    for j, st in enumerate(stages):
+        name = st["derive"]
+        expr = name.replace("d", prev) if name in ("~d", "d ^ d", "d | other", "d & other", "other - d", "d ^ other") else \
+            (name.replace("(d", f"({prev}") if name.startswith("other.") else f"{prev}." + name.replace("(d,", f"({prev},"))
+        parts.append(f"D{j + 1} = {expr}")
+        prev = f"D{j + 1}"
+    return "; then ".join(parts)
+
+
+def minimise_derived(src_ref, other_ref, case: dict, fail, oracles):
+    """Drop pre-queries / earlier queries on the derived object / later stages while the same answer stays wrong."""
+    import copy
+    import time
+    t0 = time.time()
+    where, idx, _ = fail
+    cur = copy.deepcopy(case)
+    # cut everything after the failing step
+    if isinstance(where, int):
+        cur["stages"] = cur["stages"][: where + 1]
+        cur["stages"][where]["steps"] = cur["stages"][where]["steps"][: idx + 1]
+        cur["src_post"] = []
+    elif where == "src_post":
+        cur["src_post"] = cur["src_post"][: idx + 1]
+    else:
+        return cur
+
+    def target(c):
+        return c["stages"][where]["steps"] if isinstance(where, int) else c["src_post"]
+
+    def still(c):
+        f = run_derived(src_ref, other_ref, c, oracles)["fail"]
+        return f is not None and f[0] == where and f[1] == len(target(c)) - 1
+    if not still(cur):
+        return cur
+    lists = [("pre", None), ("other_pre", None)] + [("stages", j) for j in range(len(cur["stages"]))]
+    for name, j in lists:
+        get = (lambda c: c["stages"][j]["steps"]) if name == "stages" else (lambda c: c.get(name, []))
+        i = len(get(cur)) - (2 if (name == "stages" and j == where) else 1)
+        while i >= 0 and time.time() - t0 < MINIMISE_BUDGET_S:
+            cand = copy.deepcopy(cur)
+            del get(cand)[i]
+            if still(cand):
+                cur = cand
+            i -= 1
+    return cur
+
+
+@case_guard
+def check_derived(ctx: Ctx, src_ref: DFA, other_ref, case: dict, origin: str):
+    if sessions_hanging(ctx):
+        return
+    oracles = {}
+    out = run_derived(src_ref, other_ref, case, oracles)
+    ctx.stat(f"derived:{origin}:{case.get('mode', 'frozen')}")
+    for st in case["stages"]:
+        ctx.stat("derived_by:" + st["derive"])
+    n_asked = len(case["pre"]) + sum(len(st["steps"]) for st in case["stages"]) + len(case.get("src_post", []))
+    for _ in range(n_asked):
+        ctx.case(None)
+    nontrivial = len(src_ref.states) >= 2 and bool(out["defs"]) and any(
+        oracles.get(repr(d)) is not None and not oracles[repr(d)].shape["empty"] for d in out["defs"])
+    ctx.case(("derived", repr(src_ref), repr(other_ref), json.dumps(case, sort_keys=True)) if nontrivial else None)
+    if out["skipped"]:
+        ctx.stat("derived:skipped_oracle_too_large")
+        return
+    if out["derive_error"]:
+        j, exc = out["derive_error"]
+        ctx.stat("derived:derivation_raised")
+        ctx.corr_diff("DERIVE", dict(automaton=repr(src_ref), other=repr(other_ref), case=case),
+                      f"{case['stages'][j]['derive']} raised {exc}", "a DFA (C04/C05 own the operation)")
+        return
+    for d in out["defs"]:
+        o = oracles.get(repr(d))
+        if o is not None:
+            ctx.stat("derived_lang:" + ("empty" if o.shape["empty"] else ("finite" if o.shape["finite"] else "infinite")))
+    if out["fail"]:
+        small = minimise_derived(src_ref, other_ref, case, out["fail"], oracles)
+        f = run_derived(src_ref, other_ref, small, oracles)["fail"] or out["fail"]
+        if f is out["fail"]:
+            small = case
+        where, idx, msg = f
+        steps = small["stages"][where]["steps"] if isinstance(where, int) else small[where]
+        who = f"D{where + 1}" if isinstance(where, int) else ("other" if where == "other_pre" else "the source d")
+        what = (f"{show_step(steps[idx])} asked of {who} {msg} — history: {show_derivation(small, where)}"
+                + (f"; earlier queries on {who}: " + "; ".join(show_step(s) for s in steps[:idx]) if idx else ""))
+        ctx.prop_fail(what, dict(automaton=repr(src_ref), op="derived",
+                                 params=dict(other=(repr(other_ref) if other_ref is not None else None), case=small),
+                                 what=what), FAIL_KEY)
+
+
+LEN_STEPS = [dict(q="empty"), dict(q="finite"), dict(q="min"), dict(q="max"), dict(q="card"), dict(q="len")]
+
+
+def derived_steps(rng, orc: SessionOracle, n_extra: int):
+    """The length / cardinality / iteration queries (shuffled sample) plus counting / enumeration / sampling ones."""
+    total = len(orc.ordered)
+    steps = [dict(s) for s in rng.sample(LEN_STEPS, rng.randint(3, 6))]
+    steps.append(dict(q="iter", n=(total + 2 if orc.shape["finite"] else min(total, 6))))
+    steps += [rand_step(rng, orc, allow_copy=False) for _ in range(n_extra)]
+    rng.shuffle(steps)
+    return steps
+
+
+def rand_derivation(rng, src_ref: DFA):
+    """(other_ref or None, case) — post steps are drawn with the help of a scratch derivation from an unqueried
+    copy (only to know which lengths are worth asking about); the run derives again from the queried object."""
+    al = sorted(src_ref.input_symbols)
+    names = [rng.choice(H.DERIVE_NAMES)]
+    if rng.random() < 0.3:
+        names.append(rng.choice(H.DERIVE_NAMES))
+    other_ref = gen.rand_dfa(rng, 3, al) if any(H.DERIVE[n][0] for n in names) else None
+    orc_src = bounded_oracle(src_ref)
+    if orc_src is None:
+        return None
+    pre_pool = LEN_STEPS + [dict(q="iter", n=min(len(orc_src.ordered), 4))]
+    pre = [dict(s) for s in rng.sample(pre_pool, rng.randint(1, 4))]
+    if rng.random() < 0.4:
+        pre.insert(rng.randrange(len(pre) + 1), rand_step(rng, orc_src, allow_copy=False))
+    case = dict(mode=("frozen" if rng.random() < 0.75 else "plain"), pre=pre, stages=[], src_post=[])
+    if other_ref is not None and rng.random() < 0.5:
+        orc_o = bounded_oracle(other_ref)
+        if orc_o is not None:
+            case["other_pre"] = [dict(s) for s in rng.sample(LEN_STEPS, rng.randint(1, 3))]
+    cur = src_ref.copy()
+    for n in names:
+        d = call(lambda: H.derive(n, cur, other_ref))
+        if d[0] == "err":
+            break
+        cur = d[1]
+        orc = bounded_oracle(H.twin_of(cur))
+        if orc is None:
+            break
+        case["stages"].append(dict(derive=n, steps=derived_steps(rng, orc, rng.randint(0, 2))))
+    if not case["stages"]:
+        return None
+    case["src_post"] = [dict(s) for s in rng.sample(LEN_STEPS, rng.randint(1, 3))] + \
+        ([dict(q="iter", n=min(len(orc_src.ordered), 4))] if rng.random() < 0.5 else [])
+    return other_ref, case
+
+
+def derived_corpus():
+    ab = {"a", "b"}
+    # words of length ≤ 2 (complement: length ≥ 3); no two consecutive b; everything; nothing; a finite language
+    yield DFA.of_length(ab, min_length=0, max_length=2).to_complete()
+    yield DFA.from_substring(ab, "bb", contains=False).to_complete()
+    yield DFA.universal_language(ab)
+    yield DFA.empty_language(ab)
+    yield DFA.from_finite_language(ab, {"ab", "ba", "abab"})
+    yield DFA(states={0, 1}, input_symbols={"a"}, transitions={0: {"a": 1}, 1: {"a": 0}}, initial_state=0, final_states={1})
+
+
+def new_fails(ctx: Ctx) -> int:
+    """Failures recorded so far that are not hits of an open finding."""
+    return sum(1 for f in ctx.prop_fails if f["key"] is None)
+
+
+def derived_family(ctx: Ctx, n_random: int):
+    rng = ctx.rng
+    other = DFA.from_finite_language({"a", "b"}, {"a", "bb"})
+    warm = [dict(q="empty"), dict(q="finite"), dict(q="min"), dict(q="max"), dict(q="len")]
+    for src in derived_corpus():
+        al = set(src.input_symbols)
+        o = other if al == {"a", "b"} else DFA.of_length(al, min_length=1, max_length=2)
+        for name in H.DERIVE_NAMES:
+            scratch = call(lambda: H.derive(name, src.copy(), o))
+            if scratch[0] == "err":
+                continue
+            orc = bounded_oracle(H.twin_of(scratch[1]))
+            if orc is None:
+                continue
+            total = len(orc.ordered)
+            post = [dict(s) for s in LEN_STEPS] + [dict(q="iter", n=(total + 2 if orc.shape["finite"] else min(total, 6))),
+                                                   dict(q="count", k=2), dict(q="words", k=1)]
+            for pre in ([], warm):
+                check_derived(ctx, src, o if H.DERIVE[name][0] else None,
+                              dict(mode="frozen", pre=[dict(s) for s in pre], stages=[dict(derive=name, steps=post)],
+                                   src_post=[dict(s) for s in warm]), "corpus")
+        if new_fails(ctx) >= 3:
+            return
+    for _ in range(n_random):
+        r = rng.random()
+        if r < 0.5:
+            src = gen.rand_dfa(rng, 5, partial=False)
+        else:
+            src = L.shaped_dfa(rng, 5)[0]
+        rd = rand_derivation(rng, src)
+        if rd is None:
+            ctx.stat("derived:not_generated")
+            continue
+        check_derived(ctx, src, rd[0], rd[1], "random")
+        if new_fails(ctx) >= 6:
+            return
+
+
 def corpus():
     ab = {"a", "b"}
     yield "F3_empty_language", DFA.empty_language(ab)
@@ -1043,6 +1350,9 @@ def run(ctx: Ctx):
     session_family(ctx)
     if hanging():
         return
+    derived_family(ctx, ctx.budget(220, 4000))
+    if hanging():
+        return
     big_lengths(ctx)
     len_probes(ctx)
     temporaries_probe(ctx)
@@ -1076,6 +1386,23 @@ def replay(ctx: Ctx, path: str) -> int:
     data = json.load(open(path))
     rp = data.get("replay", data)
     op, params = rp["op"], rp.get("params", {})
+    if op == "derived":
+        src = L2.eval_dfa(rp["automaton"])
+        other = L2.eval_dfa(params["other"]) if params.get("other") else None
+        case = params["case"]
+        out = run_derived(src, other, case)
+        if out["fail"] or out["derive_error"]:
+            print(f"VIOLATION property=C13 replay={path}")
+            if out["fail"]:
+                where, idx, msg = out["fail"]
+                steps = case["stages"][where]["steps"] if isinstance(where, int) else case[where]
+                who = f"D{where + 1}" if isinstance(where, int) else ("other" if where == "other_pre" else "the source d")
+                print(f"  {show_step(steps[idx])} asked of {who} {msg} — history: {show_derivation(case, where)}")
+            else:
+                print(f"  derivation #{out['derive_error'][0] + 1} of the recorded case raised {out['derive_error'][1]}")
+            return 1
+        print("replay: property holds on this input now")
+        return 0
     if op == "session":
         ref = L2.eval_dfa(rp["automaton"])
         obs, rec, bad, drift = run_session(ref, params["mode"], params["steps"])
